@@ -141,8 +141,26 @@ def coq_ranges(name, rs, comment):
     return f"(* {comment} *)\nDefinition {name} : list (N * N) :=\n  [{body}].\n"
 
 
-def build() -> str:
-    """Concatenate the tables produced by every module in tools/tables/ (sorted by name)."""
+PLUGIN_PROPERTIES = {
+    # which properties depend on which plugin's tables (None = all)
+    "t00_core.py": ["C01", "C02", "C03", "C04", "C05", "C06", "C07", "C08", "C12", "C13", "C14", "C19"],
+    "t04_wrappers.py": ["C04", "C13"],
+    "t11_configtext.py": ["C11", "C14"],
+    "t15_logging.py": ["C15"],
+    "t16_sql.py": ["C16"],
+    "t17_python.py": ["C17"],
+    "t18_cache.py": ["C18"],
+    "t20_statusline.py": ["C20"],
+}
+
+
+def build(write_baseline=False):
+    """Concatenate the tables produced by every module in tools/tables/ (sorted by name).
+
+    A plugin that fails (its tie to the source is broken) does not stop the others: its last
+    committed output (coq/Gen/baseline/<plugin>.txt) is used instead so that the rest of the
+    development still builds, and the failure is returned so that the checks of the properties
+    that depend on that plugin report the broken tie.  Returns (text, {plugin: error})."""
     import importlib.util
 
     out = [
@@ -150,29 +168,42 @@ def build() -> str:
         "From DippyV Require Import Base.Str.",
         "",
     ]
+    broken = {}
     here = os.path.dirname(os.path.abspath(__file__))
+    basedir = os.path.join(here, "..", "coq", "Gen", "baseline")
     sys.modules.setdefault("gen_tables", sys.modules[__name__])
     for name in sorted(os.listdir(os.path.join(here, "tables"))):
         if not name.endswith(".py"):
             continue
-        spec = importlib.util.spec_from_file_location("tables_" + name[:-3], os.path.join(here, "tables", name))
-        mod = importlib.util.module_from_spec(spec)
-        spec.loader.exec_module(mod)
+        bfile = os.path.join(basedir, name[:-3] + ".txt")
+        try:
+            spec = importlib.util.spec_from_file_location("tables_" + name[:-3], os.path.join(here, "tables", name))
+            mod = importlib.util.module_from_spec(spec)
+            spec.loader.exec_module(mod)
+            section = "\n".join(mod.build())
+            if write_baseline:
+                os.makedirs(basedir, exist_ok=True)
+                with open(bfile, "w", encoding="utf-8") as f:
+                    f.write(section)
+        except (TieBroken, OSError, SyntaxError, KeyError, IndexError, AttributeError, ValueError, TypeError) as e:
+            broken[name] = f"{type(e).__name__}: {e}"
+            if os.path.exists(bfile):
+                with open(bfile, encoding="utf-8") as f:
+                    section = f"(* TIE BROKEN ({name}): baseline text used so that other properties still build *)\n" + f.read()
+            else:
+                section = f"(* TIE BROKEN ({name}) and no baseline available *)"
         out.append(f"(* ---- tools/tables/{name} ---- *)")
-        out.extend(mod.build())
-    return "\n".join(out)
+        out.append(section)
+    return "\n".join(out), broken
 
 
 def main():
-    dest = sys.argv[1] if len(sys.argv) > 1 else os.path.join(os.path.dirname(__file__), "..", "coq", "Gen", "Tables.v")
-    try:
-        text = build()
-    except TieBroken as e:
-        print(f"TIE-BROKEN gen_tables: {e}", file=sys.stderr)
-        return 2
-    except (OSError, SyntaxError, KeyError, IndexError, AttributeError, ValueError) as e:
-        print(f"TIE-BROKEN gen_tables: {e}", file=sys.stderr)
-        return 2
+    import json
+
+    args = [a for a in sys.argv[1:] if not a.startswith("--")]
+    write_baseline = "--write-baseline" in sys.argv
+    dest = args[0] if args else os.path.join(os.path.dirname(__file__), "..", "coq", "Gen", "Tables.v")
+    text, broken = build(write_baseline)
     old = None
     if os.path.exists(dest):
         with open(dest, encoding="utf-8") as f:
@@ -182,6 +213,11 @@ def main():
         with open(dest, "w", encoding="utf-8") as f:
             f.write(text)
         print("gen_tables: updated", dest)
+    status = {"broken": broken,
+              "properties": sorted({p for n in broken for p in (PLUGIN_PROPERTIES.get(n) or ["*"])})}
+    print("GEN_TABLES_STATUS " + json.dumps(status))
+    for n, e in broken.items():
+        print(f"TIE-BROKEN gen_tables plugin {n}: {e}", file=sys.stderr)
     return 0
 
 
